@@ -373,7 +373,14 @@ def rcancel_receive_is_cancel_safe(ctx):
     read_task_receive_is_cancel_safe(ctx, "C09.CANCEL")
 
 
-RULES = [r1_cause_before_close, r2_no_unchecked_arith_on_peer_numbers, r3_errors_reach_watcher, r4_frontend_mapping, r5_read_error, r6_no_relock, r7_manager_not_cleared_wholesale, r8_no_panicky_text_surgery, rcancel_receive_is_cancel_safe]
+
+def rsel_shutdown_is_a_select_branch(ctx):
+    """the background tasks notice the other task's end while they wait"""
+    from .common import shutdown_is_a_select_branch
+    shutdown_is_a_select_branch(ctx, "C09.SEL")
+
+
+RULES = [rsel_shutdown_is_a_select_branch, r1_cause_before_close, r2_no_unchecked_arith_on_peer_numbers, r3_errors_reach_watcher, r4_frontend_mapping, r5_read_error, r6_no_relock, r7_manager_not_cleared_wholesale, r8_no_panicky_text_surgery, rcancel_receive_is_cancel_safe]
 
 LEVEL_TEXT = (
     "Structural necessary conditions of clean failure handling decided from the type-checked program: the happens-before "
